@@ -119,6 +119,69 @@ def size_units(tier):
         yield {"name": uname, "decls": decls, "body": body, "expected": exp, "ret": sz, "what": "match statement over a union with %d variants, first / middle / last arm taken" % sz}
 
 
+# ------------------------------------------------------------------------------------------ evaluation order with state
+def evo_units(tier):
+    """strict left-to-right evaluation where one operand is a plain variable read and the other a call that assigns that
+    variable (reading a variable IS its evaluation): every binary operator, both spellings; and the same for call
+    arguments.  The C back end leaves operand order to the C compiler (open finding native-unsequenced-effects), so
+    these units run on the VM and the evaluator only."""
+    ops = [("+", lambda a, b: a + b), ("-", lambda a, b: a - b), ("*", lambda a, b: a * b), ("==", lambda a, b: a == b), ("!=", lambda a, b: a != b),
+           ("<", lambda a, b: a < b), ("<=", lambda a, b: a <= b), (">", lambda a, b: a > b), (">=", lambda a, b: a >= b)]
+    n = 0
+    for op, f in ops:
+        for spelling in ("prefix", "infix"):
+            for shape in ("var-call", "call-var", "call-call"):
+                uname = "evo_%d" % n
+                n += 1
+                g = uname + "_g"
+                decls = "let mut %s: int = 10\n" % g
+                decls += "fn %s_bump(d: int) -> int {\n    set %s (+ %s d)\n    return %s\n}\nshadow %s_bump { assert true }\n" % (uname, g, g, g, uname)
+                lhs, rhs = {"var-call": (g, "(%s_bump 5)" % uname), "call-var": ("(%s_bump 5)" % uname, g), "call-call": ("(%s_bump 5)" % uname, "(%s_bump 7)" % uname)}[shape]
+                expr = "(%s %s %s)" % (op, lhs, rhs) if spelling == "prefix" else "(%s %s %s)" % (lhs, op, rhs)
+                body = "    set %s 10\n    (println %s)\n    (println %s)\n    return 0\n" % (g, expr, g)
+                gv = 10
+                if shape == "var-call":
+                    a = gv
+                    gv += 5
+                    b = gv
+                elif shape == "call-var":
+                    gv += 5
+                    a = gv
+                    b = gv
+                else:
+                    gv += 5
+                    a = gv
+                    gv += 7
+                    b = gv
+                r = f(a, b)
+                exp = ("%s\n" % (_show_bool(r) if isinstance(r, bool) else r)) + "%d\n" % gv
+                yield {"name": uname, "decls": decls, "body": body, "expected": exp, "ret": 0, "engines": ("vm", "eval"),
+                       "what": "operand order of %s (%s spelling), operands %s where the call assigns the variable" % (op, spelling, shape)}
+    for shape in ("var,call", "call,var", "var,call,var"):
+        uname = "evo_%d" % n
+        n += 1
+        g = uname + "_g"
+        decls = "let mut %s: int = 1\n" % g
+        decls += "fn %s_bump(d: int) -> int {\n    set %s (+ %s d)\n    return %s\n}\nshadow %s_bump { assert true }\n" % (uname, g, g, g, uname)
+        nargs = len(shape.split(","))
+        decls += "fn %s_show(%s) -> int {\n%s    return 0\n}\nshadow %s_show { assert true }\n" % (
+            uname, ", ".join("p%d: int" % i for i in range(nargs)), "".join("    (println p%d)\n" % i for i in range(nargs)), uname)
+        args = []
+        vals = []
+        gv = 1
+        for part in shape.split(","):
+            if part == "var":
+                args.append(g)
+                vals.append(gv)
+            else:
+                gv += 5
+                args.append("(%s_bump 5)" % uname)
+                vals.append(gv)
+        body = "    set %s 1\n    (%s_show %s)\n    return 0\n" % (g, uname, " ".join(args))
+        yield {"name": uname, "decls": decls, "body": body, "expected": "".join("%d\n" % v for v in vals), "ret": 0, "engines": ("vm", "eval"),
+               "what": "argument order: (%s) where the call assigns the variable" % shape}
+
+
 def units(tier):
-    for u in itertools.chain(esc_units(tier), loop_units(tier), size_units(tier)):
+    for u in itertools.chain(esc_units(tier), loop_units(tier), size_units(tier), evo_units(tier)):
         yield u
